@@ -140,7 +140,8 @@ CHECKS = {
          'recursion (term built by engine/semz3 from the logic\'s own tables and documented generalised '
          'connectives over the model\'s finished access relation); the finished relation is compared with the '
          'required closure for every initial relation; the classical identity/existence completion is explored '
-         'over all orders of set_value calls; minfloor/maxceil on symbolic integer lists.',
+         'over all orders of set_value calls; minfloor/maxceil on symbolic integer lists (and once more as CrossHair '
+         'contracts over the real functions, xh/limit_best_contracts.py).',
     note='Bounds: 2 (quick) / 3 worlds, 2 / 3 constants, sentence depth 2, 3 / 4 set_value calls. Stub: symbolic '
          'values are placed into frames directly because the setters compare with `is`. Table correctness is C07; '
          'FDE-family quantifiers are compared with the documented min/max.',
